@@ -86,6 +86,18 @@ def twins(tier, seed):
                                      ([(N - 2, N - 1), (N - 8, N - 1)], [(N - 2, N - 1), (N - 8, N + 7)], "overlapping list whose last (lower-start) range passes bit N-1"),
                                      ([(N - 4, N - 1), (N - 4, N - 3)], [(N - 4, N + 3), (N - 4, N - 3)], "overlapping list, equal starts, the longer range passes bit N-1")):
                 add(_case("x", N, [uint_field("x", pa)]), _case("x", N, [uint_field("x", na)]), "beyond-base-width", "%s, %s" % (shape_, "native base" if N in NATIVE else "arbitrary-int base"), "list")
+        # --- a field as wide as the *storage* integer of an arbitrary-int base, starting at bit 0 ---
+        if N not in NATIVE and S <= 128:
+            add(_case("x", N, [uint_field("x", [(0, N - 1)])]), _case("x", N, [uint_field("x", [(0, S - 1)])]), "beyond-base-width",
+                "scalar field covering the whole storage integer of an arbitrary-int base", "uint")
+            if S in NATIVE and S <= 128:
+                add(_case("x", N, [uint_field("x", [(0, N - 1)])]), _case("x", N, [sint_field("x", [(0, S - 1)])]), "beyond-base-width",
+                    "signed field covering the whole storage integer of an arbitrary-int base", "sint")
+        # one-piece list with a stride smaller than the element
+        if N >= 16:
+            posf = dict(uint_field("x", [(0, 7)], array=arr(2, 8)), attr_text="#[bits([0..=7], rw, stride = 8)]")
+            negf = dict(uint_field("x", [(0, 7)], array=arr(2, 4)), attr_text="#[bits([0..=7], rw, stride = 4)]")
+            add(_case("x", N, [posf]), _case("x", N, [negf]), "stride<width", "one-piece list array with a stride below the element width, %s" % bc, "list-array")
         # --- the same for fields with other access specifiers: the position rules do not depend on which accessors are generated ---
         for acc in ("", "r", "w"):
             aname = acc or "none"
